@@ -186,7 +186,7 @@ def extract_macro(repo, spec, ex):
     kind, name, istart, hend, iend = f.locate(sels)
     text = f.src[istart:iend]
     ex.items.append(dict(kind='macro', source=rel, selector=' :: '.join(sels), sha=_sha(text), name=name))
-    return text
+    return f'/*@@BODY {name}*/' + text + '/*@@END*/'
 
 
 def _fn_parts(f, istart, hend, iend):
@@ -469,7 +469,7 @@ def extract_fn(repo, header, contract, ex, body_only=False):
         sig += f' -> ({opts["ret"]}: {ret})'
     if where:
         sig += '\n' + where
-    return sig + '\n' + (contract or '').rstrip() + '\n' + body2
+    return sig + '\n' + (contract or '').rstrip() + '\n' + f'/*@@BODY {opts["name"] or name}*/' + body2 + '/*@@END*/'
 
 
 def extract_let(repo, spec, ex):
